@@ -711,8 +711,27 @@ def replay(ctx, rep):
                                        child_remove=r.get("child_remove", True), repo=core.REPO)["bad"]
         finally:
             shutil.rmtree(base, ignore_errors=True)
+    elif r.get("stream") == "exit":
+        import subprocess
+        base = tempfile.mkdtemp(prefix="verif_c03x_")
+        path = os.path.join(base, "out.log")
+        env = dict(os.environ, PYTHONPATH=core.REPO + os.pathsep + core.VERIF)
+        env.pop("LOGURU_AUTOINIT", None)
+        if r["env"] == "autoinit_off":
+            env["LOGURU_AUTOINIT"] = "False"
+        try:
+            subprocess.run(["/venv/bin/python", "-m", "harness.c03_child", "exit",
+                            json.dumps([core.REPO, path, r["nthr"], r["k"], r["how"]])], cwd=core.VERIF, env=env,
+                           timeout=120, stdout=subprocess.PIPE, stderr=subprocess.PIPE,
+                           preexec_fn=(lambda: os.close(2)) if r["env"] == "no_stderr" else None)
+            lines = open(path, encoding="utf8").read().split("\n")[:-1] if os.path.exists(path) else []
+            expected = ["T%d-%d" % (j, i) for j in range(r["nthr"]) for i in range(r["k"])]
+            bad = [] if sorted(lines) == sorted(expected) else [
+                "%d of %d accepted messages were never written" % (len(set(expected) - set(lines)), len(expected))]
+        finally:
+            shutil.rmtree(base, ignore_errors=True)
     else:
-        print("asyncio / shapes cases are re-generated from the seed: run the check with the same VERIF_SEED")
+        print("asyncio / shapes / payload cases are re-generated from the seed: run the check with the same VERIF_SEED")
         return 1
     for b in bad:
         print("VIOLATED:", b)
